@@ -37,9 +37,28 @@ impl FullnameInfo {
             .map(|(p, _)| *p)
     }
 
+    // names in the XML namespace are written with the xml prefix, which is
+    // bound to it without a declaration; no other binding of that namespace
+    // is ever written. If xml has been bound to something else there is no
+    // way to write such a name.
+    fn xml_prefix(&self, xot: &Xot) -> Option<PrefixId> {
+        let rebound = self
+            .all_namespaces
+            .iter()
+            .any(|(p, n)| *p == xot.xml_prefix() && *n != xot.xml_namespace());
+        if rebound {
+            None
+        } else {
+            Some(xot.xml_prefix())
+        }
+    }
+
     // look for the prefix. prefer the empty prefix, and if that isn't there, the
     // most recently defined prefix
     fn element_prefix_by_namespace(&self, xot: &Xot, namespace: NamespaceId) -> Option<PrefixId> {
+        if namespace == xot.xml_namespace() {
+            return self.xml_prefix(xot);
+        }
         if self
             .prefixes_by_namespace(namespace)
             .any(|p| p == xot.empty_prefix())
@@ -53,6 +72,9 @@ impl FullnameInfo {
     // look for the prefix, but only if it's not the empty prefix, as this is
     // for attributes which cannot be unprefixed and still in a namespace
     fn attribute_prefix_by_namespace(&self, xot: &Xot, namespace: NamespaceId) -> Option<PrefixId> {
+        if namespace == xot.xml_namespace() {
+            return self.xml_prefix(xot);
+        }
         self.prefixes_by_namespace(namespace)
             .find(|&prefix| prefix != xot.empty_prefix())
     }
